@@ -22,6 +22,10 @@ def run(ctx):
     for i in range(nprog):
         kw = rng.choice([{}, {"k": 2}, {"k": 1, "w": 3}, {"k": 0}, {"k": 3, "w": 1}])
         progs.append((gen.program(rng, rng.choice([1, 2, 2, 3]), kw or {"k": 1, "w": 1}, greedy_ok=rng.random() < 0.3), kw))
+    fixed = {}
+    for e in common.corpus(ctx):
+        progs.insert(0, (e["prog"], e.get("kw", {})))
+        fixed[common.pkey(e["prog"])] = e.get("values", [])
     with campaign.Campaign(ctx, "c05", shard_size=900) as camp:
         for i, (prog, kw) in enumerate(progs):
             con = campaign.realizable(prog)
@@ -32,9 +36,10 @@ def run(ctx):
                 camp.sh.session("C05.total", [iz])
                 if not z["res"]["ok"] or k2 != kw:
                     continue
-                for _ in range(3):
+                explicit = list(fixed.get(common.pkey(prog), []))
+                for _ in range(3 + len(explicit)):
                     try:
-                        v = gen.build_value(rng, prog, kw)
+                        v = explicit.pop() if explicit else gen.build_value(rng, prog, kw)
                     except Exception:
                         continue
                     pre = rng.choice([b"", b"\xee", b"\xee\xee\xee"])
